@@ -152,7 +152,7 @@ const BODY_SIZES: [usize; 7] = [11, 255, 256, 257, 1000, 4096, 65537];
 const VERSIONS: [http::Version; 5] = [http::Version::HTTP_09, http::Version::HTTP_10, http::Version::HTTP_11, http::Version::HTTP_2, http::Version::HTTP_3];
 
 fn plain_total() -> u64 {
-    METHODS.len() as u64 * VERSIONS.len() as u64 * header_sets().len() as u64 * 4 * 3 * 2 * N_RESP * 3 * BODY_SIZES.len() as u64
+    METHODS.len() as u64 * VERSIONS.len() as u64 * header_sets().len() as u64 * 7 * 3 * 2 * N_RESP * 3 * BODY_SIZES.len() as u64
 }
 
 fn level_name() -> String {
@@ -193,12 +193,21 @@ fn one_plain(i: u64, hs: &[Vec<(String, Vec<u8>)>], st: &mut Stats) {
     x /= N_RESP;
     let carrier = if x % 2 == 0 { Carrier::Header } else { Carrier::Query };
     x /= 2;
-    let uri_form = x % 4;
-    x /= 4;
+    let uri_form = x % 7;
+    x /= 7;
     let body_kind = x % 3; // 0: (), 1: Vec<u8>, 2: Bytes
     x /= 3;
-    let hset = &hs[(x % hs.len() as u64) as usize];
+    let hset_index = x % hs.len() as u64;
+    let hset = &hs[hset_index as usize];
     x /= hs.len() as u64;
+    // the request targets without a path (authority-form, absolute-form without one, asterisk-form) are crossed with
+    // methods, versions, body types, options and carriers only
+    if uri_form >= 4 && (resp != 0 || hset_index != 0 || size != BODY_SIZES[0]) {
+        return;
+    }
+    if uri_form >= 4 && uri_form != 5 && carrier == Carrier::Query {
+        return; // no query string in these forms
+    }
     let version = versions[(x % versions.len() as u64) as usize];
     x /= versions.len() as u64;
     let method = METHODS[x as usize];
@@ -226,6 +235,13 @@ fn one_plain(i: u64, hs: &[Vec<(String, Vec<u8>)>], st: &mut Stats) {
         2 => {
             plan.segs = vec![b"abs".to_vec()];
             plan.url_params = vec![(b"q".to_vec(), b"1".to_vec())];
+        }
+        4 | 5 => {} // signed over the path "/" (there is none in the target)
+        6 => {
+            match refmodel::canon::canon_path("*", opt == 1, false) {
+                Ok(p) => plan.canonical_path = Some(p.path),
+                Err(_) => return,
+            }
         }
         _ => {
             // as an HTTP/2 stack hands it over: the host only in the (absolute-form) target, no Host header,
@@ -255,8 +271,14 @@ fn one_plain(i: u64, hs: &[Vec<(String, Vec<u8>)>], st: &mut Stats) {
         }
         wire.headers.push(("X-Amz-Security-Token".into(), b"tokenB".to_vec()));
     }
-    if uri_form >= 2 {
-        wire.uri = format!("http://example.amazonaws.com{}", wire.uri);
+    match uri_form {
+        2 | 3 => wire.uri = format!("http://example.amazonaws.com{}", wire.uri),
+        // authority-form (what CONNECT carries): host and port, nothing else
+        4 => wire.uri = "example.amazonaws.com:443".into(),
+        // absolute-form without a path
+        5 => wire.uri = format!("http://example.amazonaws.com{}", wire.uri.strip_prefix('/').unwrap_or(&wire.uri)),
+        6 => wire.uri = "*".into(),
+        _ => {}
     }
     let mut cfg = Cfg::basic(now);
     cfg.s3 = opt == 1;
@@ -426,7 +448,7 @@ pub fn run(ctx: &Ctx) -> Report {
     Report {
         stats: st,
         rule: format!(
-            "accepted (reference-signed) requests: 11 methods (incl. extension methods) x 5 HTTP versions x 4 header multisets (repeated names, non-UTF-8 and empty values, mixed-case names), every second request also carrying a second Authorization and X-Amz-Security-Token header after the ones that count, half of them a session token x body types (), Vec<u8>, Bytes x {} body lengths (11 .. 65537 bytes, around 256) x 4 request-target / host forms (origin, origin with escapes / '+' / '&&', absolute-form, absolute-form without a Host header and ':authority' signed) x carrier x 4 principals x 3 session data x {{default, S3, fold}}, the whole product once per logger configuration {:?} (no logger output, or a logger that formats every record at that maximum level{}); returned method, version, URI, header names/values/multiplicity/per-name order, body bytes and principal/session data compared with what was submitted / supplied; plus {} folded form requests (URL x body parameter lists x path spelling x S3 x carrier; each with an accurate Content-Length, Content-MD5, Content-Encoding and X-Amz-Content-Sha256, signed for every second one) per logger configuration: body empty and returned query multiset = URL ⊎ body. states = distinct (principal, session size) returned; Extensions marker recorded, not judged",
+            "accepted (reference-signed) requests: 11 methods (incl. extension methods) x 5 HTTP versions x 4 header multisets (repeated names, non-UTF-8 and empty values, mixed-case names), every second request also carrying a second Authorization and X-Amz-Security-Token header after the ones that count, half of them a session token x body types (), Vec<u8>, Bytes x {} body lengths (11 .. 65537 bytes, around 256) x 4 request-target / host forms (origin, origin with escapes / '+' / '&&', absolute-form, absolute-form without a Host header and ':authority' signed) and three targets without a path (authority-form host:port, absolute-form with no path, asterisk-form; these x methods x versions x body types x options only) x carrier x 4 principals x 3 session data x {{default, S3, fold}}, the whole product once per logger configuration {:?} (no logger output, or a logger that formats every record at that maximum level{}); returned method, version, URI, header names/values/multiplicity/per-name order, body bytes and principal/session data compared with what was submitted / supplied; plus {} folded form requests (URL x body parameter lists x path spelling x S3 x carrier; each with an accurate Content-Length, Content-MD5, Content-Encoding and X-Amz-Content-Sha256, signed for every second one) per logger configuration: body empty and returned query multiset = URL ⊎ body. states = distinct (principal, session size) returned; Extensions marker recorded, not judged",
             BODY_SIZES.len(), levels, if thorough { "" } else { "; quick tier: each level covers a different third of the (method, version, header set) combinations, all other dimensions in full" }, n_f
         ),
         bounds: json!({"combinations_per_level": total, "levels": levels.len(), "folded": n_f}),
